@@ -972,6 +972,47 @@ def importer_blocks(check: Check, rule: str = "X9") -> None:
         hits = [v for k, v in bad.items() if k.startswith(construct + "/")]
         check.require(not hits, rule, construct + "/blocks", f"every model block is imported or rejected with a syntax / value / lookup error ({len(keys)} keys x {len(values)} values)"
                       if not hits else hits[0], loc(fn), {"keys": keys}, exhaustive=True, cases=len(keys) * len(values))
+    # a rule block whose `rule:` line the rule parser rejects is rejected as a whole - for the default separator and for a custom one
+    fn = imp.methods.get("rule_block")
+    node = fn.node
+    params = [a.arg for a in node.args.args]
+    why = None
+    n_sep = 0
+    for sep in ("\n", ";"):
+        n_sep += 1
+        seen_rules: list[Any] = []
+
+        def rule_hook(ex_, e, recv, args, kw, seen_rules=seen_rules):
+            seen_rules.append(args[0] if args else None)
+            raise Raised("SyntaxError", e)  # the model rule text is malformed: Rule.create rejects it
+
+        hooks = {"method:strip_comments": lambda ex_, e, recv, args, kw: args[0], "method:as_identifier": lambda ex_, e, recv, args, kw: args[0], "method:rule": rule_hook}
+        for nm in skip - {"rule"}:
+            hooks[f"method:{nm}"] = lambda ex_, e, recv, args, kw: Opaque("component")
+        ex = AbsExec(fn.qualname, hooks, helpers={k: v for k, v in imp.methods.items() if k not in skip and k != "rule_block"})
+        ex.concrete_strings = True
+        ex.static_resolver = resolver
+        ex.function_resolver = lambda nm_: p.functions.get(nm_) if nm_ in p.functions and "." not in nm_ else None
+        ex.globals = {"RuleBlock": make("RuleBlock"), "Op": Opaque("Op"), "nan": float("nan"), "inf": float("inf")}
+        me = MObj("FllImporter", {"separator": sep})
+        text = sep.join(["RuleBlock: v", "  enabled: true", "  rule: if x"])
+        try:
+            ex.block(list(node.body), {params[0]: me, params[1]: text, **({params[2]: None} if len(params) > 2 else {})})
+            outcome = "accepted"
+        except _Return:
+            outcome = "accepted"
+        except Raised as r_:
+            outcome = r_.cls
+        except Internal as i_:
+            outcome = "!" + i_.cls
+        except (Unknown, AnalysisError) as u_:
+            check.notes.append(f"{rule}: rule block with separator {sep!r} outside the model: {u_}")
+            continue
+        if outcome != "SyntaxError":
+            why = why or (f"a rule block whose rule the parser rejects (lines separated by {sep!r}) is {'accepted' if outcome == 'accepted' else 'answered with ' + outcome.lstrip('!')}"
+                          + ("" if seen_rules else ": its `rule:` line never reaches the rule parser"))
+    check.require(why is None, rule, "FllImporter.rule_block/malformed-rule", f"a rule block with a malformed rule is rejected with the parser's SyntaxError ({n_sep} separators)"
+                  if why is None else why, loc(fn), exhaustive=True, cases=n_sep)
     check.notes.append(f"{rule}: {decided} (key, value) blocks decided, {undecided} outside the interpreter's model")
     if decided < 60:
         raise AnalysisError(f"{rule}: only {decided} model blocks could be interpreted (the importer is no longer within the interpreter's model)")
